@@ -10,6 +10,7 @@ import (
 	"github.com/blugelabs/bluge/verifmc"
 
 	"verif/checkmain"
+	"verif/crashcheck"
 	"verif/explore"
 )
 
@@ -34,6 +35,12 @@ func Main(p Plan) {
 	log.SetOutput(io.Discard)
 	key := strings.ToLower(p.ID)
 	explore.Register(key, func(opts verifmc.Options, param string) (*verifmc.Sched, *explore.Result) {
+		if strings.HasPrefix(param, "faulty/") {
+			// the file invariants under I/O faults: every directory operation may fail
+			parts := strings.Split(param, "/")
+			plan := crashcheck.FaultPlan{Sticky: len(parts) > 2 && parts[2] == "sticky"}
+			return crashcheck.RunFaulty(key+"/"+param, crashcheck.Scenarios[parts[1]], crashcheck.Mode{FilesOnly: true}, plan, opts)
+		}
 		return Run(key+"/"+param, Scenarios[param], p.Oracle, opts)
 	})
 	explore.WorkerMain()
